@@ -23,6 +23,7 @@ type SpecEnv struct {
 	hasRes bool
 	local  func(name string) (Value, bool) // named locals of the function (current values)
 	depth  int
+	bound  map[string]bool // quantified / predicate-bound names (shadow locals)
 }
 
 func (env *SpecEnv) with(name string, v Value) *SpecEnv {
@@ -32,6 +33,11 @@ func (env *SpecEnv) with(name string, v Value) *SpecEnv {
 		n.vars[k] = x
 	}
 	n.vars[name] = v
+	n.bound = make(map[string]bool, len(env.bound)+1)
+	for k := range env.bound {
+		n.bound[k] = true
+	}
+	n.bound[name] = true
 	return &n
 }
 
@@ -133,6 +139,10 @@ func (e *Engine) boundVar(env *SpecEnv, bv BoundVar) (Value, Term) {
 	*env.qn++
 	name := fmt.Sprintf("%s!q%d", bv.Name, *env.qn)
 	t := e.resolveType(env.pkg, bv.Type)
+	if mt, ok := t.Underlying().(*types.Map); ok {
+		tm := T(name, SInt)
+		return MapV{Ref: tm, T: mt}, tm
+	}
 	if s, ok := e.scalarSort(t); ok {
 		tm := T(name, s)
 		return tm, tm
@@ -278,13 +288,15 @@ func containsSym(text, sym string) bool {
 }
 
 func (e *Engine) specIdent(env *SpecEnv, name string) Value {
+	if env.local != nil && !env.hasRes {
+		if _, isBound := env.bound[name]; !isBound {
+			if v, ok := env.local(name); ok {
+				return v
+			}
+		}
+	}
 	if v, ok := env.vars[name]; ok {
 		return v
-	}
-	if env.local != nil && !env.hasRes {
-		if v, ok := env.local(name); ok {
-			return v
-		}
 	}
 	switch name {
 	case "true":
